@@ -353,17 +353,18 @@ Definition dispatch (s : state) (who : option bytes) (c : cmd) (fresh_key : byte
             end
         end
   | CReplay t present =>
-      match read_check auth_ident_replay pc who (replay_types t present) with
+      (* d146031: the named event type, or EVERY DEFINED event type when the whole context is
+         replayed (registry.get_all()), must be readable *)
+      match read_check auth_ident_replay pc who (match t with Some t => [t] | None => st_schemas s end) with
       | Some o => (o, s)
       | None => (OExec, s)
       end
   | CCompare qs =>
-      if Nat.ltb (length qs) 2 then (O400, s)
-      else
-        match read_check auth_ident_compare pc who (flat_map q_types qs) with
-        | Some o => (o, s)
-        | None => (OExec, s)
-        end
+      (* 20fee3f: the identity / read check comes first, the "at least 2 queries" check second *)
+      match read_check auth_ident_compare pc who (flat_map q_types qs) with
+      | Some o => (o, s)
+      | None => if Nat.ltb (length qs) 2 then (O400, s) else (OExec, s)
+      end
   | CRemember name q =>
       match read_check auth_ident_remember pc who (q_types q) with
       | Some o => (o, s)
